@@ -316,10 +316,10 @@ pub fn c15(case_seed: u64, acc: &mut Acc) {
             r.shuffle(&mut sub);
             sub.truncate(sub.len() / 2 + 1);
             let devices = vec![
-                Script { layout: vec![], values: ValueFn::Unique { salt: 1, narrow: false }, faults: vec![], override_write: true },
-                Script { layout: outs.clone(), values: ValueFn::Unique { salt: r.next_u64(), narrow: false }, faults: vec![], override_write: false },
-                Script { layout: outs.clone(), values: ValueFn::Table(vec![vec![OutVal::Z]]), faults: vec![], override_write: true },
-                Script { layout: sub, values: ValueFn::Mixed { salt: r.next_u64(), z: 100, x: 400, edge: 200 }, faults: vec![], override_write: false },
+                Script { layout: vec![], values: ValueFn::Unique { salt: 1, narrow: false }, faults: vec![], override_write: true, rebuild_signals: false },
+                Script { layout: outs.clone(), values: ValueFn::Unique { salt: r.next_u64(), narrow: false }, faults: vec![], override_write: false, rebuild_signals: false },
+                Script { layout: outs.clone(), values: ValueFn::Table(vec![vec![OutVal::Z]]), faults: vec![], override_write: true , rebuild_signals: false},
+                Script { layout: sub, values: ValueFn::Mixed { salt: r.next_u64(), z: 100, x: 400, edge: 200 }, faults: vec![], override_write: false, rebuild_signals: false },
             ];
             for (di, d) in devices.iter().enumerate() {
                 let dynr = run_bound(tc, &case.signals, d, &opts);
